@@ -1,6 +1,11 @@
 // C03 — lifetimes of the elements of static_set<T,N> and flat_set<T, static_vector<T,N>> for copy+move, move-only and
 // copy-only element types.  Oracle: see props/C03_shared.cpp (registry invariants + value snapshots around self-ops and
 // read-back of fresh assignments; set contents are NOT compared with a reference set — that is C09).
+// Configurations with the transparent comparator etl::less<> additionally run every heterogeneous observer (find, contains,
+// count, lower_bound, upper_bound, equal_range; const and non-const) with a probe key of another type below / above /
+// equal to / between the elements in whatever state the history reached (empty, full, after erase / clear): a comparator
+// or predicate must never be invoked on a slot outside [begin, end).  flat_multiset has no lookup / modifier members on
+// this tree (constructors, iterators, size only) and is not an owner named by the property: not part of the check.
 // Engines: E1 rapidcheck histories + E2 all op pairs (thorough: triples) after a fixed fill prefix for small capacities.
 //
 // Not part of the check because it does not compile on this tree: move assignment / swap / replace for TMO (the storage
@@ -50,19 +55,79 @@ inline auto fresh_keys(std::size_t n, int from) -> std::vector<int>
     return r;
 }
 
+// Heterogeneous lookup key for the transparent-comparator configurations (Compare = etl::less<>): a type other than the
+// element type whose comparison with an element goes through the element's registry-checked accessor, so that a comparator
+// invoked on a slot outside [begin, end) (never constructed / already destroyed element) is seen by the registry.
+struct Probe {
+    int k;
+};
+template <typename T>
+    requires requires(T const& t) { t.get(); }
+auto operator<(T const& t, Probe p) -> bool
+{
+    return t.get() < p.k;
+}
+template <typename T>
+    requires requires(T const& t) { t.get(); }
+auto operator<(Probe p, T const& t) -> bool
+{
+    return p.k < t.get();
+}
+template <typename C>
+inline constexpr bool transparent = requires { typename C::is_transparent; };
+
+// probe keys: below every element, above every element, equal to an element, between two elements / next to one
+inline auto probe_key(std::vector<int> const& cur, std::uint32_t how, std::uint32_t pick_raw) -> int
+{
+    if (cur.empty()) { return static_cast<int>(how % 4) * 3; }
+    auto e = cur[pick_raw % cur.size()];
+    switch (how % 5) {
+    case 0: return cur.front() - 2;
+    case 1: return cur.back() + 2;
+    case 2: return e;
+    case 3: return e + 1;
+    default: return e - 1;
+    }
+}
+// every heterogeneous observer of a set, const and non-const; whatever iterator comes back inside [begin,end) is read
+template <bool HasEqualRange, typename V>
+void hetero_lookups(V& x, Probe p)
+{
+    V const& cx = x;
+    auto rd     = [&](auto it, auto e) {
+        if (it != e) { (void)it->get(); }
+    };
+    rd(x.find(p), x.end());
+    rd(cx.find(p), cx.end());
+    (void)cx.contains(p);
+    (void)cx.count(p);
+    rd(x.lower_bound(p), x.end());
+    rd(cx.lower_bound(p), cx.end());
+    rd(x.upper_bound(p), x.end());
+    rd(cx.upper_bound(p), cx.end());
+    if constexpr (HasEqualRange) {
+        auto r = x.equal_range(p);
+        rd(r.first, x.end());
+        auto cr = cx.equal_range(p);
+        rd(cr.first, cx.end());
+    }
+}
+
 // ================================================================== static_set
 enum Code : std::uint32_t {
     INSERT_RREF, INSERT_CREF, EMPLACE, INSERT_RANGE, ERASE_POS, ERASE_RANGE, ERASE_KEY, CLEAR, OBSERVE, SWAP_MEMBER, SWAP_FREE, SELF_SWAP_MEMBER, SELF_SWAP_FREE,
-    COPY_CTOR, COPY_ASSIGN, SELF_COPY_ASSIGN, MOVE_CTOR, MOVE_ASSIGN, SELF_MOVE_ASSIGN, CTOR_RANGE,
+    COPY_CTOR, COPY_ASSIGN, SELF_COPY_ASSIGN, MOVE_CTOR, MOVE_ASSIGN, SELF_MOVE_ASSIGN, CTOR_RANGE, HLOOKUP,
     NCODES
 };
 char const* const code_names[] = {"insert(&&)", "insert(const&)", "emplace", "insert(first,last)", "erase(pos)", "erase(first,last)", "erase(key)", "clear", "find/contains/bounds", "swap(member)", "swap(free)",
-    "self swap(member)", "self swap(free)", "copy-ctor", "copy-assign", "self copy-assign", "move-ctor+refill source", "move-assign+refill source", "self move-assign", "ctor(first,last)"};
+    "self swap(member)", "self swap(free)", "copy-ctor", "copy-assign", "self copy-assign", "move-ctor+refill source", "move-assign+refill source", "self move-assign", "ctor(first,last)",
+    "heterogeneous find/contains/count/bounds"};
 static_assert(sizeof(code_names) / sizeof(code_names[0]) == NCODES);
 
-template <typename T, std::size_t N>
+template <typename T, std::size_t N, typename Cmp = etl::less<T>>
 struct SS {
-    using V                  = etl::static_set<T, N>;
+    using V                  = etl::static_set<T, N, Cmp>;
+    static constexpr bool TR = transparent<Cmp>;
     static constexpr bool CP = std::is_copy_constructible_v<T>;
     static constexpr bool MA = std::is_move_assignable_v<etl::static_vector<T, N>>;
 
@@ -94,6 +159,7 @@ struct SS {
     {
         lt::reset();
         Hist h;
+        bool hlooked = false, hl_empty = false, hl_full = false;
         {
             V a;
             V b;
@@ -108,6 +174,9 @@ struct SS {
                 }
                 if constexpr (!MA) {
                     if (code == MOVE_ASSIGN || code == SELF_MOVE_ASSIGN || (code >= SWAP_MEMBER && code <= SELF_SWAP_FREE)) { code = MOVE_CTOR; }
+                }
+                if constexpr (!TR) {
+                    if (code == HLOOKUP) { code = OBSERVE; }
                 }
                 std::size_t sz = x.size();
                 if (sz == 0 && code == ERASE_POS) { code = INSERT_RREF; }
@@ -189,6 +258,17 @@ struct SS {
                     (void)cx.upper_bound(t);
                     (void)(cx == y);
                     (void)(cx < y);
+                    break;
+                }
+                case HLOOKUP: {
+                    // (static_set::equal_range does not compile on this tree: it returns a pair as an iterator)
+                    if constexpr (TR) {
+                        auto cur = snap(x);
+                        for (std::uint32_t how = 0; how < 5; ++how) { hetero_lookups<false>(x, Probe{probe_key(cur, how + op.b, op.a)}); }
+                        hlooked = true;
+                        hl_empty |= cur.empty();
+                        hl_full |= (cur.size() == N);
+                    }
                     break;
                 }
                 case SWAP_MEMBER:
@@ -304,6 +384,11 @@ struct SS {
             }
         }
         if (h.err.empty()) { h.err = lt::check_empty(); }
+        if (stats > 1 && TR) {
+            vf::label("static_set<less<>>.heterogeneous lookup", hlooked);
+            vf::label("static_set<less<>>.heterogeneous lookup on an empty set", hl_empty);
+            vf::label("static_set<less<>>.heterogeneous lookup on a full set", hl_full);
+        }
         h.labels("static_set", stats, k, MA ? (N >= 3 ? "mvsf" : "vsf") : (N >= 3 ? "mv" : "v"));
         return h.err;
     }
@@ -313,19 +398,20 @@ struct SS {
 enum FCode : std::uint32_t {
     F_EMPLACE, F_INSERT_RREF, F_INSERT_CREF, F_INSERT_HINT_RREF, F_INSERT_HINT_CREF, F_EMPLACE_HINT, F_INSERT_RANGE, F_ERASE_IT, F_ERASE_CIT, F_ERASE_RANGE, F_ERASE_KEY, F_ERASE_IF, F_CLEAR, F_OBSERVE,
     F_SWAP_MEMBER, F_SWAP_FREE, F_SELF_SWAP_MEMBER, F_SELF_SWAP_FREE, F_COPY_CTOR, F_COPY_ASSIGN, F_SELF_COPY_ASSIGN, F_MOVE_CTOR, F_MOVE_ASSIGN, F_SELF_MOVE_ASSIGN, F_EXTRACT_REPLACE, F_EXTRACT_DROP,
-    F_REPLACE_FRESH, F_CTOR_CONT, F_CTOR_SORTED_CONT, F_CTOR_RANGE, F_CTOR_SORTED_RANGE,
+    F_REPLACE_FRESH, F_CTOR_CONT, F_CTOR_SORTED_CONT, F_CTOR_RANGE, F_CTOR_SORTED_RANGE, F_HLOOKUP,
     F_NCODES
 };
 char const* const fcode_names[] = {"emplace", "insert(&&)", "insert(const&)", "insert(hint,&&)", "insert(hint,const&)", "emplace_hint", "insert(first,last)", "erase(iterator)", "erase(const_iterator)", "erase(first,last)",
     "erase(key)", "erase_if(c,even)", "clear", "find/contains/bounds", "swap(member)", "swap(free)", "self swap(member)", "self swap(free)", "copy-ctor", "copy-assign", "self copy-assign", "move-ctor+refill source",
     "move-assign+refill source", "self move-assign", "extract+replace back", "extract+refill", "replace(fresh container)", "ctor(container const&)", "ctor(sorted_unique,container)", "ctor(first,last)",
-    "ctor(sorted_unique,first,last)"};
+    "ctor(sorted_unique,first,last)", "heterogeneous find/contains/count/bounds/equal_range"};
 static_assert(sizeof(fcode_names) / sizeof(fcode_names[0]) == F_NCODES);
 
-template <typename T, std::size_t N>
+template <typename T, std::size_t N, typename Cmp = etl::less<T>>
 struct FS {
     using C                  = etl::static_vector<T, N>;
-    using V                  = etl::flat_set<T, C>;
+    using V                  = etl::flat_set<T, C, Cmp>;
+    static constexpr bool TR = transparent<Cmp>;
     static constexpr bool CP = std::is_copy_constructible_v<T>;
     static constexpr bool MA = std::is_move_assignable_v<C>;
 
@@ -361,6 +447,7 @@ struct FS {
     {
         lt::reset();
         Hist h;
+        bool hlooked = false, hl_empty = false, hl_full = false;
         {
             V a;
             V b;
@@ -377,6 +464,9 @@ struct FS {
                 }
                 if constexpr (!MA) {
                     if (code == F_MOVE_ASSIGN || code == F_SELF_MOVE_ASSIGN || (code >= F_SWAP_MEMBER && code <= F_SELF_SWAP_FREE) || code == F_EXTRACT_REPLACE || code == F_REPLACE_FRESH) { code = F_EXTRACT_DROP; }
+                }
+                if constexpr (!TR) {
+                    if (code == F_HLOOKUP) { code = F_OBSERVE; }
                 }
                 auto cur       = snap(x);
                 std::size_t sz = x.size();
@@ -476,6 +566,15 @@ struct FS {
                     (void)cx.equal_range(t);
                     (void)(cx == y);
                     (void)(cx < y);
+                    break;
+                }
+                case F_HLOOKUP: {
+                    if constexpr (TR) {
+                        for (std::uint32_t how = 0; how < 5; ++how) { hetero_lookups<true>(x, Probe{probe_key(cur, how + op.b, op.a)}); }
+                        hlooked = true;
+                        hl_empty |= cur.empty();
+                        hl_full |= (cur.size() == N);
+                    }
                     break;
                 }
                 case F_SWAP_MEMBER:
@@ -650,6 +749,11 @@ struct FS {
             }
         }
         if (h.err.empty()) { h.err = lt::check_empty(); }
+        if (stats > 1 && TR) {
+            vf::label("flat_set<less<>>.heterogeneous lookup", hlooked);
+            vf::label("flat_set<less<>>.heterogeneous lookup on an empty set", hl_empty);
+            vf::label("flat_set<less<>>.heterogeneous lookup on a full set", hl_full);
+        }
         h.labels("flat_set", stats, k, MA ? (N >= 3 ? "mvsf" : "vsf") : (N >= 3 ? "mv" : "v"));
         return h.err;
     }
@@ -659,6 +763,8 @@ using TCM = lt::TCM;
 using TMO = lt::TMO;
 using TCO = lt::TCO;
 #define SSC(T, N) Config{"static_set<" #T "," #N ">", &SS<T, N>::run, NCODES, code_names, (N) <= 2}
+#define SSCT(T, N) Config{"static_set<" #T "," #N ",less<>>", &SS<T, N, etl::less<>>::run, NCODES, code_names, (N) <= 2}
+#define FSCT(T, N) Config{"flat_set<" #T ",static_vector<" #T "," #N ">,less<>>", &FS<T, N, etl::less<>>::run, F_NCODES, fcode_names, (N) <= 2}
 #define FSC(T, N) Config{"flat_set<" #T ",static_vector<" #T "," #N ">>", &FS<T, N>::run, F_NCODES, fcode_names, (N) <= 2}
 
 // The TU is built twice (registry flags -DC03_PART=1 / =2) so that the two halves compile in parallel.
@@ -672,12 +778,16 @@ void init_configs()
         SSC(TCM, 1), SSC(TCM, 2), SSC(TCM, 4), SSC(TCM, 8), SSC(TMO, 1), SSC(TMO, 2), SSC(TMO, 4), SSC(TMO, 8), SSC(TCO, 2), SSC(TCO, 4), SSC(TCO, 8),
         // element shapes of C03_shared.cpp: NC copy may throw, NM move may throw, AO overloaded unary operator&
         SSC(NC<0>, 4), SSC(NM<0>, 4), SSC(AO<0>, 4),
+        // transparent comparator etl::less<>: heterogeneous lookups with a key type other than the element (op HLOOKUP)
+        SSCT(TCM, 1), SSCT(TCM, 2), SSCT(TCM, 4), SSCT(TMO, 4),
 #endif
 #if C03_PART == 0 || C03_PART == 2
         FSC(TCM, 0), FSC(TCM, 1), FSC(TCM, 2), FSC(TCM, 4), FSC(TCM, 8), FSC(TMO, 1), FSC(TMO, 2), FSC(TMO, 4), FSC(TMO, 8), FSC(TCO, 2), FSC(TCO, 4), FSC(TCO, 8),
         // (flat_set<AO,...> is not part of the check: every insertion goes through static_vector::emplace(pos, ...), which forms
         // its range with `&a, &a + 1` and does not compile for an element type with an overloaded unary operator&)
         FSC(NC<0>, 4), FSC(NM<0>, 4),
+        // transparent comparator etl::less<>: heterogeneous lookups with a key type other than the element (op F_HLOOKUP)
+        FSCT(TCM, 0), FSCT(TCM, 1), FSCT(TCM, 2), FSCT(TCM, 4), FSCT(TMO, 4),
 #endif
     };
 }
